@@ -16,7 +16,8 @@ RULE = (
     "non-final state) rendered in 2-4 independently drawn declaration plans: per transition a.to(b, event='e1 e2') / event=[...] / event=Event(..) / id-less Event() class attributes used in event=[..] "
     "/ b.from_(a) / to.itself() / class attribute per event combined with | in either association / explicit Event(transitions, name=); "
     "multi-target a.to(b, c); multi-source c.from_(a, b); from_.any() instead of explicit transitions from every non-final state; states as "
-    "attributes / States({...}) / States.from_enum; everything declared on a base class with an empty subclass. Oracle: every rendering must "
+    "attributes / States({...}) / States.from_enum; everything declared on a base class with an empty subclass; one state and every declaration "
+    "touching it added by a subclass of the class that declares the rest (the base class is instantiated first). Oracle: every rendering must "
     "satisfy the reference interpreter on the same generated history and guard valuations (states, exceptions by class/.event/.state, results, "
     "full callback logs) and all renderings must expose identical states (id, value, initial, final), the same event set and the same "
     "allowed-event set in every state. non-trivial = at least two renderings that differ in >= 2 style dimensions"
@@ -76,6 +77,8 @@ def run_case(case):
             labels.add("how:" + d["how"])
         if style.get("inherit"):
             labels.add("inherit")
+        if style.get("extend") is not None:
+            labels.add("extend")
     for n, d in enumerate(descs[1:], 1):
         if d[0] != descs[0][0]:
             return outcome(False, "C15:structure-differs", f"renderings #0 ({summ(case['styles'][0])}) and #{n} ({summ(case['styles'][n])}) differ: {descs[0][0]} vs {d[0]}",
@@ -87,18 +90,18 @@ def run_case(case):
     dims = 0
     a, b = case["styles"][0], case["styles"][-1]
     dims += a.get("states") != b.get("states")
-    dims += bool(a.get("inherit")) != bool(b.get("inherit"))
+    dims += (bool(a.get("inherit")), a.get("extend")) != (bool(b.get("inherit")), b.get("extend"))
     dims += sorted(d["how"] for d in a["trans"]) != sorted(d["how"] for d in b["trans"])
     dims += a.get("assoc") != b.get("assoc")
     return outcome(True, nontrivial=dims >= 2, labels=labels, stats=stats)
 
 
 def summ(style):
-    return f"states={style.get('states', 'attr')} inherit={bool(style.get('inherit'))} trans={[d['how'] for d in style['trans']]}"
+    return f"states={style.get('states', 'attr')} inherit={bool(style.get('inherit'))} extend={style.get('extend')} trans={[d['how'] for d in style['trans']]}"
 
 
 @st.composite
-def plan(draw, spec, bundles, inline_state_cbs):
+def plan(draw, spec, bundles, inline_state_cbs, extend=False):
     n = len(spec["trans"])
     covered = set()
     trans = []
@@ -136,7 +139,47 @@ def plan(draw, spec, bundles, inline_state_cbs):
         trans.append(d)
         k += 1
     sstyles = ["attr", "attr", "dict"] + ([] if inline_state_cbs else ["enum", "enum"])
-    return {"states": draw(st.sampled_from(sstyles)), "trans": trans, "inherit": draw(st.integers(0, 3)) == 0, "assoc": draw(st.sampled_from(["left", "right"]))}
+    style = {"states": draw(st.sampled_from(sstyles)), "trans": trans, "inherit": draw(st.integers(0, 3)) == 0, "assoc": draw(st.sampled_from(["left", "right"]))}
+    if extend and style["states"] != "enum" and not style["inherit"]:
+        zs = extend_candidates(spec, trans)
+        if zs and draw(st.integers(0, 3)) > 0:
+            style["extend"] = draw(st.sampled_from(zs))
+    return style
+
+
+def extend_candidates(spec, trans_plan):
+    """States z such that the machine without z (and without every declaration touching z) is a valid machine of its own, and
+    declaring the rest in a subclass keeps the candidate order of every source state (declarations of a subclass come last)."""
+    S, T = spec["states"], spec["trans"]
+    init = next(i for i, s_ in enumerate(S) if s_.get("initial"))
+    out = []
+    for z in range(len(S)):
+        if z == init:
+            continue
+        sub = [any(z in (T[k]["src"], T[k]["dst"]) for k in d["k"]) for d in trans_plan]
+        base_ks = [k for d, in_sub in zip(trans_plan, sub) if not in_sub for k in d["k"]]
+        if not base_ks:
+            continue
+        others = set(range(len(S))) - {z}
+        reach, grew = {init}, True
+        while grew:
+            grew = False
+            for k in base_ks:
+                if T[k]["src"] in reach and T[k]["dst"] not in reach:
+                    reach.add(T[k]["dst"])
+                    grew = True
+        if reach != others:
+            continue
+        if any(not S[i].get("final") and not any(T[k]["src"] == i for k in base_ks) for i in others):
+            continue
+        ok = True
+        for i in others:
+            seq = [in_sub for d, in_sub in zip(trans_plan, sub) for k in d["k"] if T[k]["src"] == i]
+            if True in seq and False in seq[seq.index(True):]:
+                ok = False
+        if ok:
+            out.append(z)
+    return out
 
 
 @st.composite
@@ -164,10 +207,11 @@ def cases(draw, tier):
     is_async = gen.is_async_spec(spec)
     cfg = {"rtc": True if is_async else draw(st.sampled_from([True, True, False])), "allow": draw(st.booleans()), "driver": "sync", "activate": True}
     hist = draw(gen.history(spec, max_steps=8 if tier == "quick" else 14))
-    styles = [draw(plan(spec, bundles, inline_state_cbs)) for _ in range(draw(st.integers(2, 3 if tier == "quick" else 4)))]
+    styles = [draw(plan(spec, bundles, inline_state_cbs, extend=True)) for _ in range(draw(st.integers(2, 3 if tier == "quick" else 4)))]
     # the first rendering never uses from_.any(): explicit transitions from every non-final state
     styles[0]["trans"] = [d for d in styles[0]["trans"] if d["how"] != "any"] + [{"k": [k], "how": "kwstr"} for d in styles[0]["trans"] if d["how"] == "any" for k in d["k"]]
     styles[0]["trans"].sort(key=lambda d: d["k"][0])
+    styles[0].pop("extend", None)
     return {"spec": spec, "cfg": cfg, "history": hist, "styles": styles}
 
 
